@@ -335,6 +335,23 @@ func runC15(r *report.Run) {
 		}
 		return "", "", 1, nil
 	}, r, 256)
+	// every instruction method that takes no label, and comments / labels with non-ASCII text, format verbs
+	// and invalid UTF-8, as symbols: all histories of length <= 2 over the extended alphabet, two variants
+	{
+		ext := append(asmMethodOps(), asmTextOps()...)
+		h2, t2, _ := asmHistorySearch(2, variants[:2], func(v asmVariant, al []asmOp, idx []int) (string, string, int, *asmHistory) {
+			ops := make([]asmOp, len(idx))
+			for i, k := range idx {
+				ops[i] = al[k]
+			}
+			if d := c15RunOps(v, 256, ops); d != "" {
+				return c15Classify(d), fmt.Sprintf("%+v %v: %s", v, historyNames(al, idx), d), 1, nil
+			}
+			return "", "", 1, nil
+		}, r, 256, ext...)
+		hist, trans = hist+h2, trans+t2
+		r.Set("method_and_text_symbols", len(ext))
+	}
 	// data-length sweep
 	type dl struct {
 		v   asmVariant
